@@ -3,26 +3,25 @@ import Qentem.Proofs.BigIntShr
 namespace Qentem.BigInt
 
 /-- the chunk loop of the wide `Set` -/
-theorem wideLoop_set_spec {W : Nat} (hW : 0 < W) : ∀ (fuel f : Nat) (s : Big) (number index : Nat),
-    f < fuel → number < 2 ^ (W * f) → index ≤ s.words.length → number < 2 ^ (W * (s.words.length - index)) →
+theorem wideLoop_set_spec {W : Nat} (hW : 0 < W) (chunks : Nat) : ∀ (fuel f : Nat) (s : Big) (number index : Nat),
+    index + f ≤ chunks → f < fuel → number < 2 ^ (W * f) → index ≤ s.words.length → number < 2 ^ (W * (s.words.length - index)) →
     s.idx + 1 = index → Bounded W s.words →
-    ∃ s' j, wideLoop W .set fuel s number index = .ok (s', j) ∧ s'.words.length = s.words.length ∧
+    ∃ s' j, wideLoop W .set chunks fuel s number index = .ok (s', j) ∧ s'.words.length = s.words.length ∧
       s'.idx + 1 = j ∧ index ≤ j ∧ j ≤ s.words.length ∧ Bounded W s'.words ∧
       (∀ k, j ≤ k → s'.words.getD k 0 = s.words.getD k 0) ∧
       (∀ k, k < index → s'.words.getD k 0 = s.words.getD k 0) ∧
       valW W (s'.words.take j) = valW W (s.words.take index) + 2 ^ (W * index) * number ∧
       (index < j → s'.words.getD (j - 1) 0 ≠ 0) ∧ (number ≠ 0 → index < j)
-  | 0, _, _, _, _, hf, _, _, _, _, _ => by omega
-  | fuel + 1, f, s, number, index, hf, hnum, hidx, hroom, hsi, hb => by
+  | 0, _, _, _, _, _, hf, _, _, _, _, _ => by omega
+  | fuel + 1, f, s, number, index, hcf, hf, hnum, hidx, hroom, hsi, hb => by
     unfold wideLoop
     have hB : 0 < 2 ^ W := Nat.pow_pos (by decide)
     by_cases hz : number = 0
     · subst hz
-      simp only [bne_self_eq_false, Bool.false_eq_true, if_false]
+      rw [if_neg (fun hcon => hcon.2.2 rfl)]
       exact ⟨s, index, rfl, rfl, hsi, Nat.le_refl _, hidx, hb, fun _ _ => rfl, fun _ _ => rfl, by simp, fun h => by omega,
         fun h => absurd rfl h⟩
-    · have hne : (number != 0) = true := by simp [hz]
-      rw [if_pos hne]
+    · skip
       have hlt : index < s.words.length := by
         by_contra hcon
         have : s.words.length - index = 0 := by omega
@@ -31,6 +30,7 @@ theorem wideLoop_set_spec {W : Nat} (hW : 0 < W) : ∀ (fuel f : Nat) (s : Big) 
         by_contra hcon
         have : f = 0 := by omega
         subst this; simp at hnum; omega
+      rw [if_pos ⟨by omega, by unfold maxIndex; omega, hz⟩]
       simp only [bind, Except.bind]
       rw [wr_ok _ hlt]
       simp only [Nat.shiftRight_eq_div_pow]
@@ -50,8 +50,8 @@ theorem wideLoop_set_spec {W : Nat} (hW : 0 < W) : ∀ (fuel f : Nat) (s : Big) 
         rw [this]; exact hroom
       have hchunk : number % 2 ^ W < 2 ^ W := Nat.mod_lt _ hB
       obtain ⟨s', j, hrun, hl', hsj, hij, hjn, hb', hfr, hlo, hv, htop, hadv⟩ :=
-        wideLoop_set_spec hW fuel (f - 1) ⟨s.words.set index (number % 2 ^ W), s.idx + 1⟩ (number / 2 ^ W) (index + 1)
-          (by omega) hdiv1 (by simp; omega) (by simpa using hdiv2) (by simp; omega) (hb.set _ hchunk)
+        wideLoop_set_spec hW chunks fuel (f - 1) ⟨s.words.set index (number % 2 ^ W), s.idx + 1⟩ (number / 2 ^ W) (index + 1)
+          (by omega) (by omega) hdiv1 (by simp; omega) (by simpa using hdiv2) (by simp; omega) (hb.set _ hchunk)
       refine ⟨s', j, hrun, by simpa using hl', hsj, by omega, by simpa using hjn, hb', ?_, ?_, ?_, ?_, fun _ => by omega⟩
       · intro k hk
         rw [hfr k hk]; exact getD_set_ne (by omega)
@@ -113,7 +113,7 @@ theorem assign_wide_spec {W K : Nat} (s : Big) (x : Nat) (h : Inv W s) (hdvd : W
       simp; omega
     rw [this]; exact hfit
   obtain ⟨s2, j, hrun, hl2, hsj, hij, hjn, hb2, hfr, hlo, hv, htop, _⟩ :=
-    wideLoop_set_spec hW (K / W + 1) (K / W - 1) ⟨s.words.set 0 (x % 2 ^ W), 0⟩ (x / 2 ^ W) 1 (by omega) hnum1
+    wideLoop_set_spec hW (K / W) (K / W + 1) (K / W - 1) ⟨s.words.set 0 (x % 2 ^ W), 0⟩ (x / 2 ^ W) 1 (by omega) (by omega) hnum1
       (by simp; omega) (by simpa using hnum2) rfl (h.bound.set _ hlow)
   simp only [List.length_set] at hl2 hjn
   obtain ⟨ws', hrun3, hl3, hz3, hfr3⟩ := zeroDownTo_spec s2.idx s.idx s2.words (by omega)
